@@ -370,6 +370,9 @@ func (s *IndexedState) add(ctx *Context, id string, x Map) (string, error) {
 	// index.  Otherwise its 'when' pattern keeps finding this id
 	// after the rule has been replaced.
 	var previousRule Map
+	// reschedule puts back the schedule of the fact that stays when
+	// the new one is refused after the remove hook has run.
+	reschedule := func() {}
 	if previous, have := s.IdToFact[id]; have {
 		if s.remHook != nil && isScheduledRule(previous) && !isScheduledRule(fact) {
 			// A scheduled rule is being replaced by something that
@@ -380,6 +383,15 @@ func (s *IndexedState) add(ctx *Context, id string, x Map) (string, error) {
 			s.withoutPrivilege(ctx)
 			if err != nil {
 				return "", err
+			}
+			if s.addHook != nil {
+				reschedule = func() {
+					// (Called with the privilege that hooks need.)
+					err := s.addHook(ctx, s, id, previous, ctx.GetLoc().loading)
+					if err != nil {
+						Log(ERROR, ctx, "IndexedState.add", "state", s.Name, "error", err, "when", "reschedule", "id", id)
+					}
+				}
 			}
 		}
 		if previousRule, _ = ExtractRule(ctx, previous, false); previousRule != nil {
@@ -399,6 +411,9 @@ func (s *IndexedState) add(ctx *Context, id string, x Map) (string, error) {
 						s.indexRule(ctx, id, previousRule)
 					}
 				}
+				s.withPrivilege(ctx)
+				reschedule()
+				s.withoutPrivilege(ctx)
 				return "", err
 			}
 		}
@@ -425,6 +440,7 @@ func (s *IndexedState) add(ctx *Context, id string, x Map) (string, error) {
 					s.indexRule(ctx, id, previousRule)
 				}
 			}
+			reschedule()
 			return "", err
 		}
 	}
